@@ -3,7 +3,8 @@
 Abstract states of the text written so far:
   E    nothing written                      M    mid-line, last char not a blank
   MS   mid-line, last char is ' ' (carries the origin of that blank: function + literal)
-  N1   ends with exactly one '\n'           N2   ends with two or more '\n'
+  N1   ends with exactly one '\n'           N2   ends with two or more '\n' (carries the function whose newline
+                                                 call made the line blank)
 Transfer functions of the writer API (src/format/writer.rs) are fixed here; every other Formatter function gets a
 summary entry-state -> set(exit-states), computed to a fixpoint over the resolved call graph. Strings whose value is
 not a compile-time constant are assumed non-empty-or-empty (both outcomes kept) and not ending in a blank.
@@ -15,11 +16,12 @@ from engines import callee_generic, callee_name, const_str, op_place
 W = "incan::format::writer::FormatWriter::"
 
 
-def _nl(s):
+def _nl(s, fn=None):
+    """fn = the function whose newline turned a finished line into a blank line (carried by N2 as its origin)"""
     k = s[0]
     if k in ("E", "M", "MS"):
         return ("N1",)
-    return ("N2",)
+    return ("N2", (fn or "?").split("::")[-1])
 
 
 def step_write(s, text, fn):
@@ -96,22 +98,22 @@ class LineState:
                     for s2 in step_write(s, self.const_arg(f, t["args"][1]), f.path):
                         if s2[0] == "MS":
                             self.newline_in_MS.setdefault((s2[1], s2[2]), (f.path, t.get("ln")))
-                        out.add(_nl(s2))
+                        out.add(_nl(s2, f.path))
                 elif m == "newline":
                     if s[0] == "MS":
                         self.newline_in_MS.setdefault((s[1], s[2]), (f.path, t.get("ln")))
-                    out.add(_nl(s))
+                    out.add(_nl(s, f.path))
                 elif m == "blank_lines":
                     k = self.int_arg(f, t["args"][1])
                     if k is None:
                         self.unknown_blank_counts.add((f.path, t.get("ln")))
-                        out |= {s, _nl(s), _nl(_nl(s))}
+                        out |= {s, _nl(s, f.path), _nl(_nl(s, f.path), f.path)}
                     else:
                         s2 = s
                         for _ in range(min(k, 3)):
                             if s2[0] == "MS":
                                 self.newline_in_MS.setdefault((s2[1], s2[2]), (f.path, t.get("ln")))
-                            s2 = _nl(s2)
+                            s2 = _nl(s2, f.path)
                         out.add(s2)
                 elif m == "space":
                     out.add(("MS", f.path, " "))
@@ -127,27 +129,116 @@ class LineState:
             out |= ex
         return out
 
+    def tracked_bools(self, f):
+        """Boolean locals of `f` whose every assignment is a constant (`first = true` ... `first = false`): their value
+        is carried in the abstract state, so `if first { .. }` is decided per path instead of merged."""
+        cache = getattr(self, "_tb", None)
+        if cache is None:
+            cache = self._tb = {}
+        if f.path in cache:
+            return cache[f.path]
+        cand = {}
+        for l in range(f.argc + 1, len(f.locals)):
+            if f.local_ty(l) == "bool":
+                cand[l] = True
+        writes = {l: 0 for l in cand}
+        for b in f.blocks:
+            for st in b["st"]:
+                if st["s"] != "assign" or st["d"]["p"]:
+                    continue
+                l = st["d"]["l"]
+                if l not in cand:
+                    continue
+                rv = st["rv"]
+                c = rv["o"].get("c") if rv["r"] == "use" and isinstance(rv.get("o"), dict) else None
+                if c in ("true", "false"):
+                    writes[l] += 1
+                else:
+                    cand[l] = False
+            t = b["term"]
+            if t["t"] in ("call", "tailcall") and t.get("d") and not t["d"]["p"] and t["d"]["l"] in cand:
+                cand[t["d"]["l"]] = False
+        # a reference taken to the local lets it change behind our back
+        for b in f.blocks:
+            for st in b["st"]:
+                if st["s"] == "assign" and st["rv"]["r"] in ("ref", "rawptr") and not st["rv"]["p"]["p"] \
+                        and st["rv"]["p"]["l"] in cand and st["rv"].get("bk", "mut") == "mut":
+                    cand[st["rv"]["p"]["l"]] = False
+        tr = sorted(l for l, ok in cand.items() if ok and writes[l] >= 2)
+        cache[f.path] = tr
+        return tr
+
     def analyse_fn(self, p, entry):
         f = self.F.fns[p]
         nb = len(f.blocks)
+        tracked = self.tracked_bools(f)
+        idx = {l: i for i, l in enumerate(tracked)}
+        env0 = tuple(None for _ in tracked)
         inst = [set() for _ in range(nb)]
-        inst[0] = {entry}
+        inst[0] = {(entry, env0)}
         exits = set()
         dq = deque([0])
         inq = {0}
         while dq:
             b = dq.popleft()
             inq.discard(b)
-            states = set(inst[b])
+            pairs = set(inst[b])
+            # statements: constant writes to tracked booleans; copies of them into switch temporaries
+            copies = {}
+            if tracked:
+                new_pairs = set()
+                for (ls, env) in pairs:
+                    e = list(env)
+                    for st in f.blocks[b]["st"]:
+                        if st["s"] != "assign" or st["d"]["p"]:
+                            continue
+                        l = st["d"]["l"]
+                        rv = st["rv"]
+                        if l in idx and rv["r"] == "use" and rv["o"].get("c") in ("true", "false"):
+                            e[idx[l]] = rv["o"]["c"] == "true"
+                    new_pairs.add((ls, tuple(e)))
+                pairs = new_pairs
+                for st in f.blocks[b]["st"]:
+                    if st["s"] == "assign" and not st["d"]["p"]:
+                        rv = st["rv"]
+                        if rv["r"] == "use":
+                            pl = op_place(rv["o"])
+                            if pl is not None and not pl["p"] and pl["l"] in idx:
+                                copies[st["d"]["l"]] = (pl["l"], False)
+                        elif rv["r"] == "un" and rv["op"] == "Not":
+                            pl = op_place(rv["o"])
+                            if pl is not None and not pl["p"] and pl["l"] in idx:
+                                copies[st["d"]["l"]] = (pl["l"], True)
             t = f.term(b)
+            states = {ls for ls, _ in pairs}
             if t["t"] in ("call", "tailcall"):
                 self.call_states[(p, b)] = set(states) | self.call_states.get((p, b), set())
-                states = self.transfer_call(f, b, t, states)
+                pairs = {(ls2, env) for (ls, env) in pairs for ls2 in self.transfer_call(f, b, t, {ls})}
             if t["t"] == "return":
-                exits |= states
-            for s in f.succs()[b]:
-                if not states.issubset(inst[s]):
-                    inst[s] |= states
+                exits |= {ls for ls, _ in pairs}
+            succ_pairs = {s: pairs for s in f.succs()[b]}
+            if tracked and t["t"] == "switch" and t.get("ty") == "bool":
+                pl = op_place(t["on"])
+                src = None
+                if pl is not None and not pl["p"]:
+                    if pl["l"] in idx:
+                        src = (pl["l"], False)
+                    elif pl["l"] in copies:
+                        src = copies[pl["l"]]
+                if src is not None:
+                    false_t = [tg for v, tg in t["targets"] if v == "0"]
+                    true_t = t["otherwise"]
+                    succ_pairs = {}
+                    for (ls, env) in pairs:
+                        v = env[idx[src[0]]]
+                        if v is not None and src[1]:
+                            v = not v
+                        tg = ([true_t] if v else false_t) if v is not None else f.succs()[b]
+                        for s in tg:
+                            succ_pairs.setdefault(s, set()).add((ls, env))
+            for s, ps in succ_pairs.items():
+                if not ps.issubset(inst[s]):
+                    inst[s] |= ps
                     if s not in inq:
                         dq.append(s)
                         inq.add(s)
